@@ -51,6 +51,7 @@ func lunarDigest(l *calendar.Lunar) string {
 		callRender(l.GetDayNineStar()), callRender(l.GetTime().GetNineStar()))
 	fmt.Fprintf(h, "%s|%s|%s|%s|%s|%s|", callRender(l.GetDayYi()), callRender(l.GetDayJi()), callRender(l.GetDayJiShen()), callRender(l.GetDayXiongSha()),
 		callRender(l.GetTimeYi()), callRender(l.GetTimeJi()))
+	fmt.Fprintf(h, "%s|%s|", callRender(l.GetSolar().GetFestivals()), callRender(l.GetSolar().GetOtherFestivals()))
 	for _, row := range termTable(l) {
 		fmt.Fprintf(h, "%v;", row)
 	}
@@ -236,6 +237,11 @@ func c09Call(id int) (d string, pan bool) {
 			for _, ymd := range [][6]int{{2033, 12, 25, 12, 0, 0}, {2034, 1, 5, 0, 0, 0}, {2020, 5, 23, 10, 0, 0}} {
 				s, _ := safeSolar(ymd[0], ymd[1], ymd[2], ymd[3], ymd[4], ymd[5])
 				scribble(s.GetLunar())
+				// the civil date's own lists too
+				try(func() {
+					s.GetFestivals().PushBack("污")
+					s.GetOtherFestivals().PushBack("污")
+				})
 			}
 			d = "scribbled"
 		}
